@@ -29,8 +29,12 @@ func (v *AddServicesValidator) Validate(p patch.Patch) error {
 		return err
 	}
 
-	_, err = getRequiredArray(value)
+	entries, err := getRequiredArray(value)
 	if err != nil {
+		return fmt.Errorf("invalid add services value: %s", err.Error())
+	}
+
+	if err := validateEntries(entries); err != nil {
 		return fmt.Errorf("invalid add services value: %s", err.Error())
 	}
 
